@@ -341,6 +341,15 @@ def run(ctx):
         ctx.builtin = {"model": bm, "repo": repo, "ents": ents}
         kw["builtin_models"] = repo
         ctx.probe("builtin-model-without-file-name")
+    # a `builtins` dictionary whose keys are names the models define themselves (d0, d1, ...): the fall-back must never
+    # win over a model object, whatever the provider answers first (Postponed, later the object) - and a reference
+    # that never resolves must not silently become the builtin
+    ctx.builtins_dict = None
+    if family in ("plain", "plainuri") and any(n == "Def" for n, _ in ucls) and t.chance(1, 2, "builtins-dict"):
+        defcls = next(c for c in kw["classes"] if c.__name__ == "Def")
+        ctx.builtins_dict = {f"d{i}": defcls(parent=None, name=f"d{i}", v=None, tag=None) for i in range(6)}
+        kw["builtins"] = ctx.builtins_dict
+        ctx.probe("builtins-dictionary-shadowed-by-model-objects")
     # two registered languages: files f<odd>.n belong to a second metamodel instance with its *own* tool-support flag
     ctx.lang2 = None
     if family in ("plainuri", "fqnuri") and t.chance(1, 4, "two-languages"):
